@@ -18,16 +18,6 @@ FRAMES = {
     f"{D}:DesignNearSquare.__init__#body": ["self.*"], f"{D}:DesignRectangle.__init__#body": ["self.*"], f"{D}:DesignBase.__init__#body": ["self.*"],
     f"{D}:DesignRowWise.__init__#body": ["self.*"], f"{G}:BaseGHE.__init__#body": ["self.*"],
     "ghedesigner.borehole_heat_exchangers:GHEDesignerBoreholeBase.__init__": ["self.*"],
-    # the manager: one slot per setter
-    f"{M}.set_grout": ["self._grout"], f"{M}.set_soil": ["self._soil"], f"{M}.set_simulation_parameters": ["self._simulation_parameters"],
-    f"{M}.set_geometry_constraints_near_square": ["self._geometric_constraints", "self.geom_type"],
-    f"{M}.set_geometry_constraints_rectangle": ["self._geometric_constraints", "self.geom_type"],
-    f"{M}.set_geometry_constraints_bi_rectangle": ["self._geometric_constraints", "self.geom_type"],
-    f"{M}.set_geometry_constraints_bi_zoned_rectangle": ["self._geometric_constraints", "self.geom_type"],
-    f"{M}.set_geometry_constraints_rowwise#with-ratio": ["self._geometric_constraints", "self.geom_type"],
-    f"{M}.set_geometry_constraints_rowwise#without-ratio": ["self._geometric_constraints", "self.geom_type"],
-    f"{M}.set_coaxial_pipe": ["self._pipe", "self.pipe_type"], f"{M}.set_single_u_tube_pipe": ["self._pipe", "self.pipe_type"],
-    f"{M}.set_double_u_tube_pipe_parallel": ["self._pipe", "self.pipe_type"], f"{M}.set_double_u_tube_pipe_series": ["self._pipe", "self.pipe_type"],
     # the hybrid-load builders: result arrays of the object only
     f"{H}.process_month_loads": ["self.hour", "self.load", "self.step_func_load", "self.monthly_cl[]", "self.monthly_hl[]", "self.monthly_peak_cl[]", "self.monthly_peak_hl[]",
                                  "self.monthly_peak_cl_day[]", "self.monthly_peak_hl_day[]", "self.monthly_peak_cl_duration[]", "self.monthly_peak_hl_duration[]"],
